@@ -4,5 +4,6 @@ CONSTANTS
   WB = 7
   Mutant = "nofalse"
   Wide = FALSE
+  Only = {"point", "invert"}
   LimbBits <- MCLimbBits
 INVARIANTS Sound DevOK Tight
